@@ -63,7 +63,9 @@ Inductive source := Returned (e : goerr) | Panicked (shown : bytes).
 Inductive path :=
 | Direct                                   (* writeErrorBatch on the value itself *)
 | PipeUnary | HttpUnary | PipeInit | HttpInit
-| PipeProduce | PipeExchange | HttpExchange | HttpProduce.
+| PipeProduce | PipeExchange | HttpExchange | HttpProduce
+| Framework.                               (* raised by the server itself before user code runs: version
+                                              gate, unknown method, parameter mismatch (pipe and HTTP) *)
 
 (* recovered panics become RpcError{RuntimeError, ...}; handler and init
    paths prefix the message, turn paths do not *)
